@@ -45,6 +45,7 @@
    eigen-solver. *)
 From Coq Require Import List Arith Bool QArith Lia Lqa.
 From SharkV Require Import ListAux C03Model C15Model C15Aux C15Proofs C15ProofsLin C15ProofsZca.
+From SharkV Require Import C15PcaModel C15PcaProofs C15PcaExample.
 Import ListNotations.
 Open Scope Q_scope.
 
@@ -259,3 +260,98 @@ Print Assumptions C15_lda_rule_partial.
 Example lda_hyp_satisfiable :
   forall k, (k < 1)%nat -> lda_residual 1 (fun _ _ => 2) (fun _ => 4) (fun _ => 2) k == 0.
 Proof. intros k Hk. vm_compute. reflexivity. Qed.
+
+(* ================= extension: PCA::setData / encoder / decoder AS CODED (C15PcaModel.v / C15PcaProofs.v) ================= *)
+(* The eigen-decomposition is an oracle [eig]; its contract [eig_contract] (orthogonal Q - both products -, eigen-equation,
+   non-increasing order) on the matrix it is handed is the hypothesis.  nv = number of columns of m_eigenvectors (n < d: n, else d),
+   pca_oracle_matrix = the matrix of the branch taken (X0 X0^T / n resp. the covariance).  For the small-sample branch two more
+   hypotheses: sqrt exact on the values met (ghost list) and "eigenvalues not above the rounding threshold d*eps*max(D(0),0) are
+   exactly 0" (the code replaces them by 0).  Conclusion: orthonormal columns, eigenpairs of the COVARIANCE matrix, eigenvalues =
+   the oracle's (hence the same non-zero eigenvalues), non-increasing. *)
+Theorem C15_pca_setdata_correct : forall sq eig epsm d (D : @data (list Q)),
+  let nv := pca_ncols d D in
+  let M := pca_oracle_matrix d D in
+  let Dv := snd (eig nv M) in
+  (0 < nelems D)%nat -> 0 <= epsm ->
+  eig_contract nv M (fst (eig nv M)) Dv ->
+  ((nelems D < d)%nat -> forall i, (i < nv)%nat -> Dv i <= ss_threshold epsm d (Dv O) -> Dv i == 0) ->
+  match pca_setdata sq eig epsm d D with
+  | (V, ev, met) =>
+    Forall (fun v => sq v * sq v == v) met ->
+    (forall i k, (i < nv)%nat -> (k < nv)%nat -> gram d V i k == delta i k) /\
+    (forall i j, (i < nv)%nat -> (j < d)%nat -> eig_residual d V ev D i j == 0) /\
+    (forall k, (k < nv)%nat -> ev k == Dv k) /\
+    (forall k, (S k < nv)%nat -> ev (S k) <= ev k)
+  end.
+Proof. exact pca_setdata_correct. Qed.
+Print Assumptions C15_pca_setdata_correct.
+
+(* the small-sample branch alone (any n <= d) *)
+Theorem C15_pca_small_sample_correct : forall sq eig epsm d (D : @data (list Q)),
+  let l := nelems D in
+  let M := ss_gram d l (count D) (cen d D) in
+  let U := fst (eig l M) in
+  let Dv := snd (eig l M) in
+  (0 < l)%nat -> (l <= d)%nat -> 0 <= epsm ->
+  eig_contract l M U Dv ->
+  (forall i, (i < l)%nat -> Dv i <= ss_threshold epsm d (Dv O) -> Dv i == 0) ->
+  match pca_small sq eig epsm d D with
+  | (V, ev, met) =>
+    Forall (fun v => sq v * sq v == v) met ->
+    (forall i k, (i < l)%nat -> (k < l)%nat -> gram d V i k == delta i k) /\
+    (forall i j, (i < l)%nat -> (j < d)%nat -> eig_residual d V ev D i j == 0) /\
+    (forall k, (k < l)%nat -> ev k == Dv k) /\
+    (forall k, (S k < l)%nat -> ev (S k) <= ev k)
+  end.
+Proof. exact pca_small_correct. Qed.
+Print Assumptions C15_pca_small_sample_correct.
+
+(* 4 points in 5 dimensions, oracle = the rational Hadamard basis, square roots met 16, 4, 4, 1: all hypotheses hold and the
+   run returns the unit vectors e0..e3 (the last one by the completion of the basis) *)
+Example pca_small_sample_hyp_satisfiable :
+  let l := nelems ex_pca_data in
+  let M := ss_gram 5 l (count ex_pca_data) (cen 5 ex_pca_data) in
+  (0 < l)%nat /\ (l <= 5)%nat /\ 0 <= ex_pca_epsm /\
+  eig_contract l M (fst (ex_pca_eig l M)) (snd (ex_pca_eig l M)) /\
+  (forall i, (i < l)%nat -> snd (ex_pca_eig l M) i <= ss_threshold ex_pca_epsm 5 (snd (ex_pca_eig l M) O) -> snd (ex_pca_eig l M) i == 0) /\
+  match pca_small ex_pca_sq ex_pca_eig ex_pca_epsm 5 ex_pca_data with
+  | (V, ev, met) => Forall (fun v => ex_pca_sq v * ex_pca_sq v == v) met /\
+                    forall j k, (j < 5)%nat -> (k < 4)%nat -> V j k == delta j k
+  end.
+Proof. exact ex_pca_hypotheses. Qed.
+
+(* encoder(m) / decoder(m) as coded, no whitening: the orthogonal projection onto the first m directions (the existing
+   C15_pca_* statements transferred to the matrices and offsets the code builds: A = V_m^T, offset = -A mean; V_m, mean) *)
+Theorem C15_pca_coded_projection : forall sq cut d m V ev mu,
+  (forall i k, (i < m)%nat -> (k < m)%nat -> gram d V i k == delta i k) ->
+  let E := pca_encoder sq cut false d V ev mu in
+  let Dc := pca_decoder sq cut false V ev mu in
+  let P := fun x j => apply_dec m Dc j (fun a => apply_enc d E a x) in
+  (forall z a, (a < m)%nat -> apply_enc d E a (fun j => apply_dec m Dc j z) == z a) /\
+  (forall x j, P (P x) j == P x j) /\
+  (forall x a, (a < m)%nat -> sumn d (fun j => V j a * (x j - P x j)) == 0).
+Proof. exact pca_coded_projection. Qed.
+Print Assumptions C15_pca_coded_projection.
+
+(* with whitening (rows/columns with D(a) <= 1e-15 D(0) cleared, the others divided / multiplied by sqrt(D(a)), square root
+   exact on the eigenvalues met): encoder after decoder is the identity on the codes kept, decoder after encoder the orthogonal
+   projection onto the directions kept, and the whitened code has mean 0 and variance 1 on the training data *)
+Theorem C15_pca_coded_whitening : forall sq cut d m V ev mu,
+  (forall i k, (i < m)%nat -> (k < m)%nat -> gram d V i k == delta i k) ->
+  Forall (fun v => sq v * sq v == v) (pca_wh_met cut m ev) -> 0 <= cut -> 0 <= ev O ->
+  let E := pca_encoder sq cut true d V ev mu in
+  let Dc := pca_decoder sq cut true V ev mu in
+  (forall z a, (a < m)%nat -> apply_enc d E a (fun j => apply_dec m Dc j z) == if negb (pca_cleared cut ev a) then z a else 0) /\
+  (forall x j, apply_dec m Dc j (fun a => apply_enc d E a x)
+               == sumn m (fun a => if negb (pca_cleared cut ev a) then V j a * pca_enc d V mu a x else 0) + mu j).
+Proof. intros sq cut d m V ev mu HG Hsq Hc He. split; [exact (wh_enc_dec sq cut d m V ev mu HG Hsq Hc He)|exact (wh_dec_enc sq cut d m V ev mu Hsq Hc He)]. Qed.
+Print Assumptions C15_pca_coded_whitening.
+
+Theorem C15_pca_whitened_code_variance : forall sq cut d m V ev a (D : @data (list Q)), ~ count D == 0 -> (a < m)%nat ->
+  Forall (fun v => sq v * sq v == v) (pca_wh_met cut m ev) -> 0 <= cut -> 0 <= ev O ->
+  pca_cleared cut ev a = false ->
+  (forall j, (j < d)%nat -> eig_residual d V ev D a j == 0) -> gram d V a a == 1 ->
+  let E := pca_encoder sq cut true d V ev (pca_mean d D) in
+  mean (lin d (fst E) (snd E) a) D == 0 /\ var (lin d (fst E) (snd E) a) D == 1.
+Proof. exact wh_code_variance. Qed.
+Print Assumptions C15_pca_whitened_code_variance.
